@@ -382,7 +382,7 @@ theorem HInv.updA {a : String} {aep : Ep} {s : HS} (h : HInv a aep s)
                ∧ ∀ e ∈ s.accLog, e.serial + 1 < accCalls')
     (hcalls : s.accCalls ≤ accCalls')
     (hsyn1 : ∀ c ∈ synLog', c < s.net.chans.length) (hsyn2 : synLog'.Nodup)
-    (hbag : ∀ pk ∈ bag', pk ∈ s.bag)
+    (hbag : ∀ pk ∈ bag', pk ∈ s.bag ∨ (pk.ty ≠ .syn ∧ pk.ty ≠ .synack))
     (hbag1 : bag'.Pairwise (fun p q => p.ty = .syn → q.ty = .syn → p.chan ≠ q.chan))
     (hbag2 : ∀ pk ∈ bag', pk.ty = .syn → ∀ c, pk.chan = some c → c ∉ synLog') :
     HInv a aep { s with net := n', bag := bag', synLog := synLog', accCalls := accCalls' } := by
@@ -446,11 +446,16 @@ theorem HInv.updA {a : String} {aep : Ep} {s : HS} (h : HInv a aep s)
     · rw [hso o ho] at hv; exact h.d_live d hd o v f hv hf hdf
   · intro pk hpk hty
     simp only [hcv]
-    obtain ⟨c, cv, q1, q2, _, q4⟩ := h.b_syn pk (hbag pk hpk) hty
-    exact ⟨c, cv, q1, q2, hbag2 pk hpk hty c q1, q4⟩
+    rcases hbag pk hpk with hb | hb
+    · obtain ⟨c, cv, q1, q2, _, q4⟩ := h.b_syn pk hb hty
+      exact ⟨c, cv, q1, q2, hbag2 pk hpk hty c q1, q4⟩
+    · exact absurd hty hb.1
   · exact hbag1
   · intro pk hpk hty
-    simp only [hcv]; exact h.b_ack pk (hbag pk hpk) hty
+    simp only [hcv]
+    rcases hbag pk hpk with hb | hb
+    · exact h.b_ack pk hb hty
+    · exact absurd hty hb.2
   · intro c hc; show c < n'.chans.length; rw [hcl]; exact hsyn1 c hc
   · exact hsyn2
   · intro va1 ac1 hva1 hac1
@@ -1034,5 +1039,313 @@ theorem HInv.dial {a : String} {aep : Ep} {s : HS} (h : HInv a aep s) (o : Strin
     · subst ho; rw [hso'] at hv1; cases hv1; exact h.o_fwd o' v hv hop1
     · rw [hso o' ho] at hv1; exact h.o_fwd o' v1 hv1 hop1
   · intro x hx; show x.1 < n'.chans.length; rw [hcl]; have := h.nat_lt x hx; omega
+
+/-- **`acceptor::close`**: unregistered, forwarder detached, the accept aborted, the queue reset. -/
+theorem HInv.closeAcc {a : String} {aep : Ep} {s : HS} (h : HInv a aep s)
+    (va : SockV) (ac : AccState) (hva : s.net.sv a = some va) (hac : va.acc = some ac)
+    (n' : NetSt) (fw : List Pkt)
+    (hcfg : n'.cfg = s.net.cfg) (hfw : n'.fwds.length = s.net.fwds.length)
+    (hcl : n'.chans.length = s.net.chans.length)
+    (hreg : n'.reg.tcp = (if va.bound.isDefault then s.net.reg.tcp else simUnbind s.net.reg.tcp a va.bound))
+    (hsv : ∀ o, n'.sv o = if o = a then some ⟨false, {}, none, none, none, some { ac with queueLimit := -1, conns := [], acceptOp := none }⟩ else s.net.sv o)
+    (hcv : ∀ c, n'.cv c = s.net.cv c)
+    (hft : ∀ g, n'.fwdTarget g = if va.fwd = some g then none else s.net.fwdTarget g)
+    (hfwd : ∀ q ∈ fw, q.ty = .err) :
+    HInv a aep { s with net := n', bag := s.bag ++ fw } := by
+  have hsa : n'.sv a = some ⟨false, {}, none, none, none, some { ac with queueLimit := -1, conns := [], acceptOp := none }⟩ := by
+    rw [hsv, if_pos rfl]
+  have hso : ∀ o, o ≠ a → n'.sv o = s.net.sv o := fun o ho => by rw [hsv, if_neg ho]
+  have hother : ∀ o v f, o ≠ a → s.net.sv o = some v → v.fwd = some f → va.fwd ≠ some f := by
+    intro o v f ho hv hf hvf
+    have h1 := (h.s_fwd o v f hv hf).2
+    have h2 := (h.s_fwd a va f hva hvf).2
+    rw [h1] at h2; exact ho (Option.some.inj h2)
+  constructor
+  · exact ⟨_, _, hsa, rfl, rfl⟩
+  · intro va1 hva1 hop1; rw [hsa] at hva1; cases hva1; cases hop1
+  · intro va1 ac1 hva1 hac1 _
+    rw [hsa] at hva1; cases hva1
+    simp only [Option.some.injEq] at hac1; subst hac1
+    refine ⟨by show (-1 : Int) ≤ 0; omega, ?_, rfl⟩
+    rw [hft]
+    split
+    · rfl
+    · cases hvo : va.isOpen with
+      | true =>
+        rename_i hn
+        exact absurd (h.a_open va hva hvo).2.1 hn
+      | false => exact (h.a_closed va ac hva hac hvo).2.1
+  · intro e he hea
+    rw [hreg] at he
+    split at he
+    · exact h.reg_a e he hea
+    · exact h.reg_a e (mem_simUnbind he) hea
+  · intro o v hne hv; rw [hso o hne] at hv; exact h.o_acc o v hne hv
+  · show 0 < n'.fwds.length; rw [hfw]; exact h.fwd0
+  · show s.dialLog.length = n'.chans.length; rw [hcl]; exact h.dial_len
+  · intro c cv d hc hd
+    simp only [hcv] at hc
+    obtain ⟨q1, q2, q3, q4, q5, q6, q7, f0, r1, r2, r3, r4⟩ := h.chan_ok c cv d hc hd
+    refine ⟨q1, q2, q3, q4, q5, q6, q7, f0, r1, by show f0 < n'.fwds.length; omega, r3, ?_⟩
+    show cv.hops0 = route0 n'.cfg aep cv ++ [fwdHop f0]
+    rw [hcfg]; exact r4
+  · intro c cv hc hq
+    simp only [hcv] at hc
+    show cv.hops1 = route1 n'.cfg aep cv ++ [fwdHop 0]
+    rw [hcfg]; exact h.hops1_q c cv hc hq
+  · intro c cv e hc he hec
+    simp only [hcv] at hc
+    show ∃ g, e.fwd = some g ∧ cv.hops1 = route1 n'.cfg aep cv ++ [fwdHop g]
+    rw [hcfg]; exact h.hops1_a c cv e hc he hec
+  · intro o v hne hv hch; rw [hso o hne] at hv; exact h.idle o v hne hv hch
+  · intro o v va1 _ _ hva1 hop1; rw [hsa] at hva1; cases hva1; cases hop1
+  · intro o v c hne hv hch
+    rw [hso o hne] at hv; simp only [hcv]; exact h.conn o v c hne hv hch
+  · intro o v f hv hf
+    show f < n'.fwds.length ∧ n'.fwdTarget f = some o
+    by_cases ho : o = a
+    · subst ho; rw [hsa] at hv; cases hv; cases hf
+    · rw [hso o ho] at hv
+      rw [hfw, hft, if_neg (hother o v f ho hv hf)]
+      exact h.s_fwd o v f hv hf
+  · intro f o hfo
+    rw [hft] at hfo
+    split at hfo
+    · cases hfo
+    · rename_i hn
+      obtain ⟨v, q1, q2⟩ := h.f_own f o hfo
+      by_cases ho : o = a
+      · subst ho; rw [hva] at q1; cases q1; exact absurd q2 hn
+      · exact ⟨v, by rw [hso o ho]; exact q1, q2⟩
+  · intro d hd o v f hv hf hdf
+    by_cases ho : o = a
+    · subst ho; rw [hsa] at hv; cases hv; cases hf
+    · rw [hso o ho] at hv; exact h.d_live d hd o v f hv hf hdf
+  · intro pk hpk hty
+    simp only [hcv]
+    rcases List.mem_append.mp hpk with hpk | hpk
+    · exact h.b_syn pk hpk hty
+    · rw [hfwd pk hpk] at hty; cases hty
+  · show (s.bag ++ fw).Pairwise _
+    rw [List.pairwise_append]
+    refine ⟨h.b_syn1, ?_, ?_⟩
+    · apply List.Pairwise.imp_of_mem (R := fun _ _ => True)
+      · intro p q hp _ _ hpt _; rw [hfwd p hp] at hpt; cases hpt
+      · exact List.pairwise_of_forall (fun _ _ => trivial)
+    · intro p _ q hq _ hqt; rw [hfwd q hq] at hqt; cases hqt
+  · intro pk hpk hty
+    simp only [hcv]
+    rcases List.mem_append.mp hpk with hpk | hpk
+    · exact h.b_ack pk hpk hty
+    · rw [hfwd pk hpk] at hty; cases hty
+  · intro c hc; show c < n'.chans.length; rw [hcl]; exact h.syn_lt c hc
+  · exact h.syn_nd
+  · intro va1 ac1 hva1 hac1
+    rw [hsa] at hva1; cases hva1
+    simp only [Option.some.injEq] at hac1; subst hac1
+    obtain ⟨dropped, q1, _⟩ := h.fifo va ac hva hac
+    exact ⟨dropped ++ ac.conns, by simp [q1], fun hh => by cases hh⟩
+  · intro e he
+    obtain ⟨op, c, g, q1, q2, q3, q4, q5, q6, q7, q8, q9⟩ := h.a_log e he
+    refine ⟨op, c, g, q1, q2, q3, q4, by show g < n'.fwds.length; omega, q6, q7, q8, ?_⟩
+    intro cv hc; simp only [hcv] at hc; exact q9 cv hc
+  · intro va1 ac1 op hva1 hac1 hop
+    rw [hsa] at hva1; cases hva1
+    simp only [Option.some.injEq] at hac1; subst hac1
+    cases hop
+  · exact h.ser_lt
+  · exact h.ser_mono
+  · intro e he op c v heo hec hv hch
+    obtain ⟨op', _, _, q1, _, _, _, _, _, _, q8, _⟩ := h.a_log e he
+    rw [heo] at q1; cases q1
+    rw [hso _ q8] at hv; exact h.peer_b e he op c v heo hec hv hch
+  · exact h.con_ok
+  · intro o v hv hop
+    by_cases ho : o = a
+    · subst ho; rw [hsa] at hv; cases hv; cases hop
+    · rw [hso o ho] at hv; exact h.o_fwd o v hv hop
+  · intro x hx; show x.1 < n'.chans.length; rw [hcl]; exact h.nat_lt x hx
+
+/-- a packet in flight is replaced by one with the same type, channel and route (a NAT hop
+    rewrote its source) -/
+theorem HInv.bagSet {a : String} {aep : Ep} {s : HS} (h : HInv a aep s) (i : Nat) (pk pk' : Pkt)
+    (hi : s.bag[i]? = some pk) (hty : pk'.ty = pk.ty) (hch : pk'.chan = pk.chan) (hh : pk'.hops = pk.hops) :
+    HInv a aep { s with bag := s.bag.set i pk' } := by
+  have hmem : ∀ q ∈ s.bag.set i pk', q ∈ s.bag ∨ q = pk' := by
+    intro q hq
+    rcases List.mem_or_eq_of_mem_set hq with h1 | h1
+    · exact Or.inl h1
+    · exact Or.inr h1
+  have hpk : pk ∈ s.bag := List.mem_of_getElem? hi
+  have hkey : (s.bag.set i pk').map (fun p => (p.ty, p.chan)) = s.bag.map (fun p => (p.ty, p.chan)) := by
+    rw [List.map_set]
+    have hi' := List.getElem?_eq_some_iff.mp hi
+    obtain ⟨hlt, hget⟩ := hi'
+    apply List.ext_getElem?
+    intro j
+    rw [List.getElem?_set]
+    split
+    · rename_i hij; subst hij
+      simp only [List.length_map, hlt, if_true, List.getElem?_map, hi, Option.map_some, hty, hch]
+    · rfl
+  exact {
+    a_ex := h.a_ex, a_open := h.a_open, a_closed := h.a_closed, reg_a := h.reg_a, o_acc := h.o_acc, fwd0 := h.fwd0,
+    dial_len := h.dial_len, chan_ok := h.chan_ok, hops1_q := h.hops1_q, hops1_a := h.hops1_a, idle := h.idle,
+    idle_b := h.idle_b, conn := h.conn, s_fwd := h.s_fwd, f_own := h.f_own, d_live := h.d_live,
+    b_syn := by
+      intro q hq hqt
+      rcases hmem q hq with h1 | h1
+      · exact h.b_syn q h1 hqt
+      · subst h1; rw [hty] at hqt; rw [hch, hh]; exact h.b_syn pk hpk hqt
+    b_syn1 := by
+      have := h.b_syn1
+      have e1 : ∀ l : List Pkt, l.Pairwise (fun p q => p.ty = .syn → q.ty = .syn → p.chan ≠ q.chan)
+          ↔ (l.map (fun p => (p.ty, p.chan))).Pairwise (fun k1 k2 => k1.1 = PType.syn → k2.1 = PType.syn → k1.2 ≠ k2.2) := by
+        intro l; rw [List.pairwise_map]
+      show (s.bag.set i pk').Pairwise _
+      rw [e1, hkey, ← e1]; exact this
+    b_ack := by
+      intro q hq hqt
+      rcases hmem q hq with h1 | h1
+      · exact h.b_ack q h1 hqt
+      · subst h1; rw [hty] at hqt; rw [hch, hh]; exact h.b_ack pk hpk hqt
+    syn_lt := h.syn_lt, syn_nd := h.syn_nd, fifo := h.fifo, a_log := h.a_log, pend := h.pend, ser_lt := h.ser_lt,
+    ser_mono := h.ser_mono, peer_b := h.peer_b, con_ok := h.con_ok, o_fwd := h.o_fwd, nat_lt := h.nat_lt }
+
+theorem natView_append_same (log : List (Nat × String)) (c : Nat) (ext : String) (e : Ep) :
+    natView (log ++ [(c, ext)]) c e = { e with addr := ext } := by
+  simp [natView, List.filter_append]
+
+theorem natView_append_other (log : List (Nat × String)) (c d : Nat) (ext : String) (e : Ep) (h : d ≠ c) :
+    natView (log ++ [(c, ext)]) d e = natView log d e := by
+  have : ((c == d) = false) := by simp [Ne.symm h]
+  simp [natView, List.filter_append, this]
+
+theorem natView_port (log : List (Nat × String)) (c : Nat) (e : Ep) : (natView log c e).port = e.port := by
+  unfold natView; split <;> rfl
+
+/-- the SYN of channel `c`, still in flight, crosses a NAT hop: side 0's visible address is
+    rewritten -/
+theorem HInv.visRw {a : String} {aep : Ep} {s : HS} (h : HInv a aep s) (c : Nat) (ext : String) (cv0 : ChanV)
+    (hc0 : s.net.cv c = some cv0) (hcs : c ∉ s.synLog)
+    (n' : NetSt)
+    (hcfg : n'.cfg = s.net.cfg) (hfw : n'.fwds.length = s.net.fwds.length)
+    (hcl : n'.chans.length = s.net.chans.length) (hreg : n'.reg.tcp = s.net.reg.tcp)
+    (hsv : ∀ o, n'.sv o = s.net.sv o) (hft : ∀ g, n'.fwdTarget g = s.net.fwdTarget g)
+    (hcv : ∀ d, n'.cv d = if d = c then some { cv0 with vis0 := { cv0.vis0 with addr := ext } } else s.net.cv d) :
+    HInv a aep { s with net := n', natLog := s.natLog ++ [(c, ext)] } := by
+  have hcvx : ∀ d cv, n'.cv d = some cv → ∃ cv1, s.net.cv d = some cv1 ∧ cv.ep0 = cv1.ep0 ∧ cv.ep1 = cv1.ep1
+      ∧ cv.vis1 = cv1.vis1 ∧ cv.hops0 = cv1.hops0 ∧ cv.hops1 = cv1.hops1 ∧ (d ≠ c → cv = cv1)
+      ∧ (d = c → cv.vis0 = { cv1.vis0 with addr := ext }) := by
+    intro d cv hd
+    rw [hcv] at hd
+    split at hd
+    · rename_i hdc; subst hdc; cases hd
+      exact ⟨cv0, hc0, rfl, rfl, rfl, rfl, rfl, fun hn => absurd rfl hn, fun _ => rfl⟩
+    · rename_i hdc
+      exact ⟨cv, hd, rfl, rfl, rfl, rfl, rfl, fun _ => rfl, fun hh => absurd hh hdc⟩
+  have hcvold : ∀ d cv1, s.net.cv d = some cv1 → ∃ cv, n'.cv d = some cv ∧ cv.ep0 = cv1.ep0 ∧ cv.hops0 = cv1.hops0
+      ∧ cv.hops1 = cv1.hops1 ∧ (d ≠ c → cv = cv1) := by
+    intro d cv1 hd
+    rw [hcv]
+    split
+    · rename_i hdc; subst hdc; rw [hc0] at hd; cases hd
+      exact ⟨_, rfl, rfl, rfl, rfl, fun hn => absurd rfl hn⟩
+    · exact ⟨cv1, hd, rfl, rfl, rfl, fun _ => rfl⟩
+  have hnotacc : ∀ e ∈ s.accLog, e.cid ≠ some c := by
+    intro e he hec
+    obtain ⟨va, ac, h1, h2, _⟩ := h.a_ex
+    obtain ⟨dropped, hf, _⟩ := h.fifo va ac h1 h2
+    apply hcs; rw [hf]
+    have : c ∈ s.accLog.filterMap (·.cid) := List.mem_filterMap.mpr ⟨e, he, hec⟩
+    simp [this]
+  constructor
+  · obtain ⟨va, ac, h1, h2, h3⟩ := h.a_ex; exact ⟨va, ac, by rw [hsv]; exact h1, h2, h3⟩
+  · intro va hva hop; rw [hsv] at hva
+    obtain ⟨q1, q2, q3, q4⟩ := h.a_open va hva hop
+    exact ⟨q1, q2, by rw [hft]; exact q3, by rw [hreg]; exact q4⟩
+  · intro va ac hva hac hcl'; rw [hsv] at hva
+    obtain ⟨q1, q2, q3⟩ := h.a_closed va ac hva hac hcl'
+    exact ⟨q1, by rw [hft]; exact q2, q3⟩
+  · intro e he; rw [hreg] at he; exact h.reg_a e he
+  · intro o v hne hv; rw [hsv] at hv; exact h.o_acc o v hne hv
+  · show 0 < n'.fwds.length; rw [hfw]; exact h.fwd0
+  · show s.dialLog.length = n'.chans.length; rw [hcl]; exact h.dial_len
+  · -- chan_ok
+    intro d cv dd hc hd
+    obtain ⟨cv1, hc1, e0, e1, e3, e4, _, e6, e7⟩ := hcvx d cv hc
+    obtain ⟨q1, q2, q3, q4, q5, q6, q7, f0, r1, r2, r3, r4⟩ := h.chan_ok d cv1 dd hc1 hd
+    refine ⟨q1, q2, by rw [e0]; exact q3, by rw [e1]; exact q4, by rw [e3]; exact q5, by rw [e0]; exact q6,
+      ?_, f0, r1, by show f0 < n'.fwds.length; omega, r3, ?_⟩
+    · show cv.vis0 = natView (s.natLog ++ [(c, ext)]) d cv.ep0
+      by_cases hdc : d = c
+      · subst hdc
+        rw [natView_append_same, e7 rfl, q7, e0]
+        have := natView_port s.natLog d cv1.ep0
+        cases hnv : natView s.natLog d cv1.ep0 with
+        | mk ad po => rw [hnv] at this; simp at this; simp [this]
+      · rw [natView_append_other _ _ _ _ _ hdc, e6 hdc]; exact q7
+    · show cv.hops0 = route0 n'.cfg aep cv ++ [fwdHop f0]
+      rw [hcfg, e4, r4]; simp [route0, e0]
+  · intro d cv hc hq
+    obtain ⟨cv1, hc1, e0, _, _, _, e5, _⟩ := hcvx d cv hc
+    show cv.hops1 = route1 n'.cfg aep cv ++ [fwdHop 0]
+    rw [hcfg, e5, h.hops1_q d cv1 hc1 hq]; simp [route1, e0]
+  · intro d cv e hc he hec
+    obtain ⟨cv1, hc1, e0, _, _, _, e5, _⟩ := hcvx d cv hc
+    obtain ⟨g, q1, q2⟩ := h.hops1_a d cv1 e hc1 he hec
+    refine ⟨g, q1, ?_⟩
+    show cv.hops1 = route1 n'.cfg aep cv ++ [fwdHop g]
+    rw [hcfg, e5, q2]; simp [route1, e0]
+  · intro o v hne hv hch; rw [hsv] at hv; exact h.idle o v hne hv hch
+  · intro o v va hne hv hva hop hch; rw [hsv] at hv hva; exact h.idle_b o v va hne hv hva hop hch
+  · intro o v c' hne hv hch
+    rw [hsv] at hv
+    obtain ⟨cv1, d, q1, q2, q3⟩ := h.conn o v c' hne hv hch
+    obtain ⟨cv, hcvn, e0, _⟩ := hcvold c' cv1 q1
+    refine ⟨cv, d, hcvn, q2, ?_⟩
+    rcases q3 with ⟨r1, r2, r3⟩ | r
+    · left; exact ⟨by rw [e0]; exact r1, r2, r3⟩
+    · right; exact r
+  · intro o v f hv hf; rw [hsv] at hv
+    show f < n'.fwds.length ∧ n'.fwdTarget f = some o
+    rw [hfw, hft]; exact h.s_fwd o v f hv hf
+  · intro f o hfo; rw [hft] at hfo
+    obtain ⟨v, q1, q2⟩ := h.f_own f o hfo
+    exact ⟨v, by rw [hsv]; exact q1, q2⟩
+  · intro d hd o v f hv hf hdf; rw [hsv] at hv; exact h.d_live d hd o v f hv hf hdf
+  · intro pk hpk hty
+    obtain ⟨c', cv1, q1, q2, q3, q4⟩ := h.b_syn pk hpk hty
+    obtain ⟨cv, hcvn, _, _, e5, _⟩ := hcvold c' cv1 q2
+    exact ⟨c', cv, q1, hcvn, q3, by rw [e5]; exact q4⟩
+  · exact h.b_syn1
+  · intro pk hpk hty
+    obtain ⟨c', cv1, q1, q2, q3, q4⟩ := h.b_ack pk hpk hty
+    obtain ⟨cv, hcvn, _, e4, _⟩ := hcvold c' cv1 q2
+    exact ⟨c', cv, q1, hcvn, by rw [e4]; exact q3, q4⟩
+  · intro c' hc'; show c' < n'.chans.length; rw [hcl]; exact h.syn_lt c' hc'
+  · exact h.syn_nd
+  · intro va ac hva hac; rw [hsv] at hva; exact h.fifo va ac hva hac
+  · intro e he
+    obtain ⟨op, c', g, q1, q2, q3, q4, q5, q6, q7, q8, q9⟩ := h.a_log e he
+    refine ⟨op, c', g, q1, q2, q3, q4, by show g < n'.fwds.length; omega, q6, q7, q8, ?_⟩
+    intro cv hc
+    have hne : c' ≠ c := by intro hcc; rw [hcc] at q2; exact hnotacc e he q2
+    obtain ⟨cv1, hc1, _, _, _, _, _, e6, _⟩ := hcvx c' cv hc
+    rw [e6 hne]; exact q9 cv1 hc1
+  · intro va ac op hva hac hop; rw [hsv] at hva
+    obtain ⟨q1, q2, q3, q4⟩ := h.pend va ac op hva hac hop
+    exact ⟨q1, by show (n'.sv op.peer).isSome = true; rw [hsv]; exact q2, q3, q4⟩
+  · exact h.ser_lt
+  · exact h.ser_mono
+  · intro e he op c' v heo hec hv hch; rw [hsv] at hv; exact h.peer_b e he op c' v heo hec hv hch
+  · exact h.con_ok
+  · intro o v hv hop; rw [hsv] at hv; exact h.o_fwd o v hv hop
+  · intro x hx
+    show x.1 < n'.chans.length
+    rw [hcl]
+    rcases List.mem_append.mp hx with hx | hx
+    · exact h.nat_lt x hx
+    · rw [List.mem_singleton] at hx; subst hx; exact cv_lt hc0
 
 end SimVerif
